@@ -62,6 +62,14 @@ def run(tier, seed):
         b = rng.randbytes(32) + b"\x45" + b"\x00\x00\x00\x05" + rng.randbytes(16) + cid_len.to_bytes(2, "big") + rng.randbytes(cid_len) + bad
         run_one(b, "bad-eddsa")
         run_one(b + b"\x00", "bad-eddsa-suffix", "reject")
+    # hostile CBOR in the COSE-key slot and in the extension slot (exceptions outside cbor2's own hierarchy, recursion)
+    for item in cborgen.hostile_cbor():
+        hdr_at = rng.randbytes(32) + b"\x41" + b"\x00\x00\x00\x01" + rng.randbytes(16) + b"\x00\x02" + b"id"
+        hdr_ed = rng.randbytes(32) + b"\x81" + b"\x00\x00\x00\x01"
+        good_key = cbor2.dumps({1: 2, 3: -7, -1: 1, -2: bytes(32), -3: bytes(32)})
+        hdr_both = rng.randbytes(32) + b"\xc1" + b"\x00\x00\x00\x01" + rng.randbytes(16) + b"\x00\x02" + b"id" + good_key
+        for b in (hdr_at + item, hdr_ed + item, hdr_both + item):
+            run_one(b, "hostile-cbor")
     # arbitrary bytes
     for i in range(1500 if quick else 60000):
         L = rng.choice([0, 1, 36, 37, 38, 55, 60, 100, 200])
